@@ -80,12 +80,12 @@ TIERS = {
                   stp_cover=(2, '{1, 2}'), lpm_cover=(2, '{1, 2}', '{1, 2}'),
                   stp_dfs=(2, [1, 2], 400), lpm_dfs=(2, [1, 2], [1, 2], 60),
                   rand=dict(count=600, n=(4, 8), bufs=(1, 2, 3), ws=(1, 2, 3)),
-                  ds=dict(maxn=3, ws=[1, 2], bufs=[1, 2], seeds=2, real_rounds=1)),
+                  ds=dict(maxn=3, ws=[1, 2], bufs=[1, 2], seeds=2, real_rounds=1, shared=800)),
     'thorough': dict(stp_mc=(4, '{1, 2, 3}'), lpm_mc=(4, '{1, 2, 3}', '{1, 2, 3}'),
                      stp_cover=(3, '{1, 2, 3}'), lpm_cover=(3, '{1, 2}', '{1, 2}'),
                      stp_dfs=(3, [1, 2, 3], 100000), lpm_dfs=(3, [1, 2], [1, 2], 1500),
                      rand=dict(count=20000, n=(4, 12), bufs=(1, 2, 3, 4), ws=(1, 2, 3)),
-                     ds=dict(maxn=4, ws=[1, 2, 3], bufs=[1, 2, 3], seeds=6, real_rounds=12)),
+                     ds=dict(maxn=4, ws=[1, 2, 3], bufs=[1, 2, 3], seeds=6, real_rounds=12, shared=20000)),
 }
 
 
@@ -245,6 +245,40 @@ def _rand_job(job):
     return rec
 
 
+def _shared_job(job):
+    cfg, seed = job
+    rec, sched = conc.run_shared(cfg, conc.sticky_chooser(seed))
+    if rec is not None:
+        rec['how'] = 'random-line-level'
+    return rec
+
+
+def shared_jobs(rng, count):
+    """Pool prefetch / parallel map over structured pipelines (random API terms
+    of the pipeline family) that the workers share."""
+    from . import randprog
+    r2 = random.Random(rng.randrange(1 << 30))
+    out = []
+    while len(out) < count:
+        p = randprog.program(r2, r2.choice([1, 2, 2, 3, 3, 4]), 3, 'core', 'i')
+        # one pool per execution: the log verdicts (cancellation, read-ahead)
+        # speak about ONE executor; nested pools are iterated under schedules
+        # by the pipeline family (C01)
+        if findings._ops(p) & {'prefetch', 'pmap'}:
+            continue
+        api = 'prefetch' if r2.random() < 0.7 else 'parmap'
+        if api == 'prefetch' and not randprog._builds(
+                {'op': 'prefetch', 'w': 2, 'bs': 2, 'cfe': 'none', 'in': p}):
+            continue
+        if not randprog._builds(p):
+            continue
+        w = r2.choice([2, 2, 3])
+        stop = ('exhaust', 0) if r2.random() < 0.75 else ('close', r2.randint(0, 3))
+        out.append(({'api': api, 'w': w, 'buf': r2.randint(w, 4), 'prog': p,
+                     'stop': stop[0], 'stop_k': stop[1]}, r2.randrange(1 << 30)))
+    return out
+
+
 def _ds_job(job):
     cfg, seed = job
     rec, sched = conc.run_ds(cfg, conc.random_chooser(seed))
@@ -325,7 +359,7 @@ STP_FIELDS = ('id', 'n', 'buf', 'fail_at', 'fail_cls', 'stop', 'stop_k', 'events
               'end', 'alive', 'deadlock')
 LPM_FIELDS = STP_FIELDS + ('w', 'fn_fail')
 DS_FIELDS = ('id', 'api', 'n', 'buf', 'w', 'fn_fail', 'fail_kind', 'cfe', 'stop', 'stop_k', 'events',
-             'delivered', 'end', 'alive', 'deadlock', 'len_ok')
+             'delivered', 'end', 'alive', 'deadlock', 'len_ok', 'shape', 'seq')
 
 
 def explore(tier, res):
@@ -359,15 +393,18 @@ def explore(tier, res):
     jobs_ds = [(c, rng.randrange(1 << 30)) for c in conc.ds_configs(dsp['maxn'], dsp['ws'], dsp['bufs'])
                for _ in range(dsp['seeds'])]
     jobs_real = real_configs(dsp['real_rounds'], rng)
+    jobs_shared = shared_jobs(rng, dsp['shared'])
     with mp.get_context('fork').Pool(common.NCPU) as pool:
         r1 = pool.map_async(_replay_job, jobs_replay, chunksize=20)
         r2 = pool.map_async(_dfs_job, jobs_dfs, chunksize=1)
         r3 = pool.map_async(_rand_job, jobs_rand, chunksize=20)
         r4 = pool.map_async(_ds_job, jobs_ds, chunksize=20)
+        r5 = pool.map_async(_shared_job, jobs_shared, chunksize=20)
         replayed = r1.get(1800)
         dfs = r2.get(3600)
         rand = r3.get(1800)
         dsrecs = r4.get(1800)
+        shared = [r for r in r5.get(1800) if r is not None]
     # the real back ends fork their own pools: run them from a small pool of
     # fresh processes, a few at a time
     with mp.get_context('spawn').Pool(4) as pool:
@@ -377,9 +414,10 @@ def explore(tier, res):
                  'dfs_executions': sum(len(x) for x, _ in dfs), 'random_executions': len(rand),
                  'cover_replays': len(replayed),
                  'dataset_level_controlled': len(dsrecs),
+                 'dataset_level_shared_pipeline_line_level': len(shared),
                  'real_backend_runs (sampling, OS-scheduled)': len(real)})
     res.coverage['exploration'] = info
-    records = list(replayed) + [r for x, _ in dfs for r in x] + list(rand) + list(dsrecs) + list(real)
+    records = list(replayed) + [r for x, _ in dfs for r in x] + list(rand) + list(dsrecs) + shared + list(real)
     for r in records:           # TLA+ cannot take strings apart
         if r['end'].startswith('raised_other'):
             r['end_detail'] = r['end']
@@ -445,7 +483,8 @@ def run(prop, tier):
                 f'fail={r.get("fail_cls", r.get("fail_kind"))}@{r.get("fail_at", r.get("fn_fail"))}, {r["how"]})',
                 {'family': 'conc', 'kind': r['kind'],
                  'cfg': {k: r[k] for k in r if k in ('api', 'backend', 'n', 'buf', 'w', 'fail_at', 'fail_cls',
-                                                      'fn_fail', 'fail_kind', 'cfe', 'stop', 'stop_k')},
+                                                      'fn_fail', 'fail_kind', 'cfe', 'stop', 'stop_k',
+                                                      'prog', 'shape', 'seq')},
                  'events': r['events'], 'end': r['end'], 'delivered': r['delivered'],
                  'deadlock': r['deadlock'], 'alive': r['alive'], 'verdict': [status, clause],
                  'how': 'controlled execution of the real threads, log judged by TLC'})
